@@ -139,6 +139,12 @@ def cases(ctx):
                 ["add", [["R", 0], ["R", 0], ["C", 10]]], ["blt", [["R", 0], ["C", 0], 2]]]
         yield {"kind": "direct", "nq": nq, "seed_prog": seed, "prog": prog, "debug": False, "load": False, "set_below": True,
                "loaded_two_qubit": False, "script": [rng.randrange(2) for _ in range(8)]}
+        # the same root seen with a forward branch: the `set` that is last in the text above the gate is skipped on one path
+        r0 = rng.choice([0, 1])
+        prog = [["set", [["R", 0], r0]], ["set", [["Q", 1], b2]], ["set", [["Q", 0], a]], ["bez", [["R", 0], 5]], ["set", [["Q", 0], c]],
+                [rng.choice(["cnot", "cphase"]), [["Q", 0], ["Q", 1]]], ["h", [["Q", 0]]]]
+        yield {"kind": "direct", "nq": nq, "seed_prog": seed, "prog": prog, "debug": False, "load": False, "set_below": True,
+               "loaded_two_qubit": False, "script": [rng.randrange(2) for _ in range(8)]}
     for _ in range(ctx.n(300, 30000)):
         g = HostGen(rng, max_depth=rng.choice([2, 3]), allow_regs=False)
         g.p_cond_regmeas = 0.0
